@@ -463,6 +463,13 @@ impl Check for C15 {
         if r.coin() {
             sc.extra_dst.push((glob_name(&mut r) + "x", 3));
         }
+        // sometimes the destination still holds a DIRECTORY (with a file in it) where the source
+        // now has a file: the run must fail that file, never clear the directory away
+        // ("without --delete a recursive sync removes nothing"; nor is it in the printed plan)
+        if r.below(6) == 0 && !sc.files.is_empty() {
+            let i = r.usize_below(sc.files.len());
+            sc.files[i].dst = DstState::DirInTheWay;
+        }
         sc.excludes = (0..r.urange(1, 3))
             .map(|_| {
                 let mut p = glob_name(&mut r);
